@@ -290,18 +290,21 @@ theorem c06_run_vote_returns (cfg : Cfg) (voters : List Voter) (hne : voters ≠
   simp [this]
 
 /-- The constants read from the current source are in the range the theorems above rely on: default thresholds
-    in [0,1), uniform positive priors, likelihood centred at ½ with positive gain, fallback posterior in [0,1];
-    and the default criteria are attainable (so unanimity applies to every default configuration). -/
+    in [0,1) and at least the documented shares (">50%", ">66%"), uniform positive priors, likelihood centred at ½
+    with positive gain, fallback posterior in [0,1]; and the default criteria are attainable (so unanimity applies
+    to every default configuration). -/
 theorem c06_constants_table :
     0 ≤ majorityThreshold ∧ majorityThreshold < 1 ∧ 0 ≤ supermajorityThreshold ∧ supermajorityThreshold < 1 ∧
     adjBase = 1 / 2 ∧ likBase = 1 / 2 ∧ adjCentre = 1 / 2 ∧ 0 < likGain ∧
     priorPermit = priorBlock ∧ 0 < priorPermit ∧ 0 ≤ posteriorFallback ∧ posteriorFallback ≤ 1 ∧
     majorityThreshold ≤ 1 / 2 ∧ 0 ≤ confidenceMin ∧ confidenceMin ≤ 1 ∧
+    1 / 2 ≤ majorityThreshold ∧ 66 / 100 ≤ supermajorityThreshold ∧
     (∀ s n, Attainable ⟨s, none, 1⟩ n) := by
   refine ⟨const_facts.1, const_facts.2.1, const_facts.2.2.1, const_facts.2.2.2.1, const_facts.2.2.2.2.1,
     const_facts.2.2.2.2.2.1, const_facts.2.2.2.2.2.2.1, const_facts.2.2.2.2.2.2.2.1,
     const_facts.2.2.2.2.2.2.2.2.1, const_facts.2.2.2.2.2.2.2.2.2.1, const_facts.2.2.2.2.2.2.2.2.2.2.1,
-    const_facts.2.2.2.2.2.2.2.2.2.2.2, by decide +kernel, by decide +kernel, by decide +kernel, ?_⟩
+    const_facts.2.2.2.2.2.2.2.2.2.2.2, by decide +kernel, by decide +kernel, by decide +kernel, by decide +kernel,
+    by decide +kernel, ?_⟩
   intro s n
   have h1 : majorityThreshold < 1 := const_facts.2.1
   have h2 : supermajorityThreshold < 1 := const_facts.2.2.2.1
